@@ -53,6 +53,9 @@ def _check(S, m, d, h):
     if pre != ("raise", "ValueError"):
         return cls, ("recover-accepts-s=0", "ValueError", pre)
     rec = L.call(S.ecdsa_raw_recover, h, sig)
+    rec_l = L.call(S.ecdsa_raw_recover, h, list(sig))  # the same triple as a list (e.g. after a JSON round trip)
+    if rec_l != rec:
+        return cls, ("recover-from-list-differs", rec, rec_l)
     pub = L.call(S.privtopub, priv)
     if rec[0] != "ok" or L.to_model(rec[1]) != Q:
         return cls, ("recover", Q, rec)
